@@ -118,6 +118,12 @@ func faultBackends() []string {
 }
 
 func oneRequest(addr, fault string) map[string]any {
+	return oneRequestWithin(addr, fault, 13*time.Second)
+}
+
+// once one exchange of a case never ended the verdict of the case is settled; what follows is still recorded, but
+// does not wait the full bound again
+func oneRequestWithin(addr, fault string, bound time.Duration) map[string]any {
 	t0 := time.Now()
 	res := map[string]any{"ended": false, "ms": 0, "outcome": "none"}
 	done := make(chan string, 1)
@@ -159,7 +165,7 @@ func oneRequest(addr, fault string) map[string]any {
 	select {
 	case oc := <-done:
 		res["ended"], res["outcome"] = true, oc
-	case <-time.After(13 * time.Second):
+	case <-time.After(bound):
 		res["outcome"] = "stuck"
 	}
 	res["ms"] = int(time.Since(t0) / time.Millisecond)
@@ -191,20 +197,31 @@ func runFault(idx int, raw json.RawMessage, seed int64) map[string]any {
 	}
 	defer func() {
 		h.srv.Close()
-		h.lb.Stop()
+		// a wedged balancer must not wedge the harness as well
+		fin := make(chan struct{})
+		go func() { h.lb.Stop(); close(fin) }()
+		select {
+		case <-fin:
+		case <-time.After(3 * time.Second):
+		}
 	}()
 	reqs := []any{}
+	bound := 13 * time.Second
 	for _, f := range c.Faults {
 		if f == "wait" {
 			time.Sleep(1200 * time.Millisecond)
 			continue
 		}
-		reqs = append(reqs, oneRequest(h.addr, f))
+		r := oneRequestWithin(h.addr, f, bound)
+		if r["outcome"] == "stuck" {
+			bound = 1500 * time.Millisecond
+		}
+		reqs = append(reqs, r)
 	}
 	// let ejection windows (1 s) and the breaker timeout (1 s) pass
 	time.Sleep(1300 * time.Millisecond)
 	probe := func() int {
-		r := oneRequest(h.addr, "none")
+		r := oneRequestWithin(h.addr, "none", bound)
 		var st int
 		fmt.Sscanf(fmt.Sprint(r["outcome"]), "status-%d", &st)
 		return st
@@ -213,10 +230,23 @@ func runFault(idx int, raw json.RawMessage, seed int64) map[string]any {
 	p2 := probe()
 	time.Sleep(50 * time.Millisecond)
 	gz := true
-	for _, b := range h.lb.ListBackends() {
-		if b.ActiveConnections != 0 {
-			gz = false
+	lst := make(chan []int32, 1)
+	go func() {
+		a := []int32{}
+		for _, b := range h.lb.ListBackends() {
+			a = append(a, b.ActiveConnections)
 		}
+		lst <- a
+	}()
+	select {
+	case a := <-lst:
+		for _, n := range a {
+			if n != 0 {
+				gz = false
+			}
+		}
+	case <-time.After(3 * time.Second):
+		gz = false // the listing itself never returned
 	}
 	return map[string]any{"reqs": reqs, "probe": p1, "second": p2, "gauges": gz}
 }
